@@ -6,11 +6,13 @@ from ._st import dump_store, raw_others, raw_view
 ID = "C04"
 LEVEL = "exploration"
 ANCHOR_FILES = ["aw_datastore/storages/memory.py", "aw_datastore/storages/sqlite.py", "aw_datastore/storages/peewee.py"]
-REQUIRED_COUNTERS = ["ops.memory", "ops.sqlite", "ops.peewee", "frame_checks", "quiet_frame_checks", "ops_with_foreign_id"]
+REQUIRED_COUNTERS = ["ops.memory", "ops.sqlite", "ops.peewee", "frame_checks", "quiet_frame_checks", "ops_with_foreign_id",
+                     "ops_on_deleted_bucket_id"]
 RULE = ("per case one store with 2-4 buckets created in a generated order and populated from one shared pool of start and "
         "end instants (so instants coincide across buckets); then 8-25 single operations addressed to one bucket: "
         "insert, insert of an event carrying an id, bulk insert, bulk upsert, replace, replace_last, delete, "
-        "update_bucket, delete_bucket + re-create - with ids drawn from the addressed bucket, from ANOTHER bucket "
+        "update_bucket, delete_bucket + re-create, and operations addressed to a bucket that was deleted while a handle to it is "
+        "still held and a NEW bucket has been created since - with ids drawn from the addressed bucket, from ANOTHER bucket "
         "(live or deleted there) never used, or unbindable (2**63, -5, 'abc': the operation raises midway); before and after each operation every other bucket is dumped "
         "(events + metadata) and compared - in half of the cases through API reads, in the other half ('quiet') through "
         "the writer connection's own uncommitted view, because an API read commits on the lazy store and would hide "
@@ -46,8 +48,11 @@ def gen_case(rng, ctx):
         origin = rng.choice(["own", "foreign", "foreign", "foreign", "foreign-deleted", "never", "huge", "negative", "str"])
         idref = dict(origin=origin, other=rng.randrange(nb), pick=rng.randrange(100))
         kind = rng.choice(["insert", "insert_with_id", "insert_with_id", "bulk", "upsert", "upsert", "replace", "replace",
-                           "replace_last", "replace_last", "delete", "delete", "update_bucket", "recreate_bucket"])
+                           "replace_last", "replace_last", "delete", "delete", "update_bucket", "recreate_bucket", "deleted_target"])
         op = dict(op=kind, b=a, id=idref, ev=ev())
+        if kind == "deleted_target":
+            op["sub"] = rng.choice(["insert", "insert", "replace_last", "delete_bucket", "delete_bucket", "update_bucket", "bulk", "delete"])
+            op["fill"] = [ev() for _ in range(rng.choice([0, 1, 3]))]
         if kind in ("bulk", "upsert"):
             op["evs"] = [ev() for _ in range(rng.choice([1, 2, 3]))]
             op["ids"] = [dict(origin=rng.choice(["own", "foreign", "foreign", "never", "none", "none", "huge", "str"]),
@@ -119,6 +124,55 @@ def run_case(case, ctx):
             a = op["b"]
             A = bids[a]
             kind = op["op"]
+            if kind == "deleted_target":
+                # A is deleted while a handle to it is still held, a NEW bucket is created (it may inherit A's row id /
+                # key), then an operation is addressed to the deleted A: it must be rejected or change nothing elsewhere
+                try:
+                    stale = ds[A]
+                    ds.delete_bucket(A)
+                except Exception:  # noqa: BLE001 - A did not exist any more
+                    continue
+                fresh = f"bk-new-{k}"
+                ds.create_bucket(fresh, type="tn", client="cn", hostname="hn", data={"fresh": k})
+                if op["fill"]:
+                    ds[fresh].insert([mk_event(s_) for s_ in op["fill"]])
+                bids.append(fresh)
+                created_rank[fresh] = len(created_rank)
+                before = raw_others(raw_view(st)[0], A) if quiet else dump_store(ds, skip={A})
+                sub, outcome = op["sub"], "ok"
+                try:
+                    if sub == "insert":
+                        stale.insert(mk_event(op["ev"]))
+                    elif sub == "bulk":
+                        stale.insert([mk_event(op["ev"]), mk_event(op["ev"])])
+                    elif sub == "replace_last":
+                        stale.replace_last(mk_event(op["ev"]))
+                    elif sub == "delete":
+                        stale.delete(op["id"]["pick"] % 12)
+                    elif sub == "delete_bucket":
+                        ds.delete_bucket(A)
+                    elif sub == "update_bucket":
+                        ds.update_bucket(A, name="stale-update", data={"stale": True})
+                except Exception as ex:  # noqa: BLE001 - "or is rejected"
+                    outcome = type(ex).__name__
+                    ctx.count(f"rejected.{backend}.deleted_target.{sub}")
+                after = raw_others(raw_view(st)[0], A) if quiet else dump_store(ds, skip={A})
+                ctx.count(f"ops.{backend}")
+                ctx.count("frame_checks")
+                ctx.count("ops_on_deleted_bucket_id")
+                nontriv += 1
+                ctx.sigs.add(canon([backend, "quiet" if quiet else "loud", kind, sub, outcome != "ok", bool(op["fill"])]))
+                if after != before:
+                    diff = sorted(set(before) ^ set(after), key=repr)[:4] if quiet else [b_ for b_ in after if after[b_] != before.get(b_)] + [b_ for b_ in before if b_ not in after]
+                    viols.append((f"{backend}:operation-on-deleted-bucket-changed-another-bucket",
+                                  f"op#{k}: {A} deleted (stale handle kept), {fresh} created, then {sub} addressed to {A} "
+                                  f"(outcome={outcome}) changed: {diff!r:.400}"))
+                    break
+                try:    # keep the history going: A exists again
+                    ds.create_bucket(A, type="t3", client="c3", hostname="h3")
+                except Exception:  # noqa: BLE001
+                    pass
+                continue
             s_us, e_us = op["ev"]["ts"], op["ev"]["ts"] + op["ev"]["dur"]
             co = set()
             if quiet:
